@@ -56,14 +56,20 @@ type Lemma struct {
 	Src  string
 }
 
+type Macro struct {
+	Params []string
+	Body   string
+}
+
 type Set struct {
-	ByKey map[string]*FuncContract
-	Specs map[string]*ssa.Function // spec.F functions
-	Funcs map[string]*ssa.Function // all functions of the program by short name
+	Macros map[string]*Macro
+	ByKey  map[string]*FuncContract
+	Specs  map[string]*ssa.Function // spec.F functions
+	Funcs  map[string]*ssa.Function // all functions of the program by short name
 }
 
 func NewSet() *Set {
-	return &Set{ByKey: map[string]*FuncContract{}, Specs: map[string]*ssa.Function{}, Funcs: map[string]*ssa.Function{}}
+	return &Set{Macros: map[string]*Macro{}, ByKey: map[string]*FuncContract{}, Specs: map[string]*ssa.Function{}, Funcs: map[string]*ssa.Function{}}
 }
 
 // ParseFile reads //@ blocks from a contract file. pkgShort is the package's short path (e.g. "security").
@@ -90,7 +96,25 @@ func (s *Set) ParseFile(path, pkgShort string) error {
 			word, rest = t[:i], strings.TrimSpace(t[i+1:])
 		}
 		fail := func(e error) error { return fmt.Errorf("%s:%d: %v", path, ln+1, e) }
+		if word != "define" && word != "func" && word != "end" {
+			rest = s.expand(rest, 0)
+		}
 		switch word {
+		case "define":
+			// define Name(p1, p2) := body
+			i := strings.Index(rest, ":=")
+			lp := strings.Index(rest, "(")
+			rp := strings.Index(rest, ")")
+			if i < 0 || lp < 0 || rp < lp || rp > i {
+				return fail(fmt.Errorf("define Name(params) := expr"))
+			}
+			var ps []string
+			for _, p := range strings.Split(rest[lp+1:rp], ",") {
+				if p = strings.TrimSpace(p); p != "" {
+					ps = append(ps, p)
+				}
+			}
+			s.Macros[strings.TrimSpace(rest[:lp])] = &Macro{Params: ps, Body: strings.TrimSpace(rest[i+2:])}
 		case "func":
 			fc, err := parseHeader(rest, pkgShort)
 			if err != nil {
@@ -114,6 +138,77 @@ func (s *Set) ParseFile(path, pkgShort string) error {
 		}
 	}
 	return nil
+}
+
+// expand replaces macro calls Name(args) by their bodies (textually, with parameter substitution).
+func (s *Set) expand(t string, depth int) string {
+	if depth > 8 || len(s.Macros) == 0 {
+		return t
+	}
+	isId := func(c byte) bool {
+		return c == '_' || c >= 'a' && c <= 'z' || c >= 'A' && c <= 'Z' || c >= '0' && c <= '9'
+	}
+	var out strings.Builder
+	i := 0
+	for i < len(t) {
+		if isId(t[i]) && (i == 0 || !isId(t[i-1]) && t[i-1] != '.') {
+			j := i
+			for j < len(t) && isId(t[j]) {
+				j++
+			}
+			name := t[i:j]
+			if m, ok := s.Macros[name]; ok && j < len(t) && t[j] == '(' {
+				// balanced args
+				d, k := 0, j
+				for ; k < len(t); k++ {
+					if t[k] == '(' {
+						d++
+					} else if t[k] == ')' {
+						d--
+						if d == 0 {
+							break
+						}
+					}
+				}
+				args := splitTop(t[j+1 : k])
+				body := m.Body
+				if len(args) == len(m.Params) {
+					// simultaneous substitution of whole identifiers
+					var b strings.Builder
+					x := 0
+					for x < len(body) {
+						if isId(body[x]) && (x == 0 || !isId(body[x-1]) && body[x-1] != '.') {
+							y := x
+							for y < len(body) && isId(body[y]) {
+								y++
+							}
+							w := body[x:y]
+							rep := w
+							for pi, pn := range m.Params {
+								if pn == w {
+									rep = "(" + strings.TrimSpace(args[pi]) + ")"
+								}
+							}
+							b.WriteString(rep)
+							x = y
+						} else {
+							b.WriteByte(body[x])
+							x++
+						}
+					}
+					out.WriteString("(" + s.expand(b.String(), depth+1) + ")")
+					i = k + 1
+					continue
+				}
+			}
+			out.WriteString(name)
+			i = j
+			continue
+		}
+		out.WriteByte(t[i])
+		i++
+	}
+	return out.String()
 }
 
 func parseHeader(h, pkgShort string) (*FuncContract, error) {
@@ -309,6 +404,10 @@ type Env struct {
 	InOld bool
 	Skol  map[string]*Term
 	Owner string
+	// Assume: the expression is being assumed (hypothesis position): quantified clauses become QFacts of St
+	Assume  bool
+	guards  []*Term
+	noQuant int
 }
 
 func (e *Env) state() *sym.State {
@@ -533,7 +632,13 @@ func (e *Env) eval(x ast.Expr) TV {
 		}
 		bad("index on %T", base.V)
 	case *ast.UnaryExpr:
+		if n.Op == token.NOT {
+			e.noQuant++
+		}
 		a := e.eval(n.X)
+		if n.Op == token.NOT {
+			e.noQuant--
+		}
 		if a.T == nil && a.C != nil {
 			switch n.Op {
 			case token.SUB:
@@ -685,8 +790,15 @@ func (e *Env) call(n *ast.CallExpr) TV {
 		e.InOld = sv
 		return r
 	case "implies":
+		sa := e.Assume
+		e.Assume = false // no quantifiers in negative position
+		e.noQuant++
 		a := e.boolT(n.Args[0])
+		e.noQuant--
+		e.Assume = sa
+		e.guards = append(e.guards, a)
 		b := e.boolT(n.Args[1])
+		e.guards = e.guards[:len(e.guards)-1]
 		return TV{V: sym.Scalar{T: Implies(a, b)}, T: types.Typ[types.Bool]}
 	case "ite":
 		c := e.boolT(n.Args[0])
@@ -715,6 +827,55 @@ func (e *Env) call(n *ast.CallExpr) TV {
 			return TV{V: sym.Scalar{T: BVC(64, uint64(len(v.Elems)))}, T: types.Typ[types.Int]}
 		}
 		bad("len of %T", a.V)
+	case "has":
+		// has(m, k): key k is present in map m
+		m := e.deref(e.eval(n.Args[0]))
+		kv := e.concretize(e.eval(n.Args[1]), types.Typ[types.Int64])
+		mv, ok := m.V.(sym.MapV)
+		if !ok {
+			bad("has of %T", m.V)
+		}
+		if mv.Obj == nil {
+			return TV{V: sym.Scalar{T: False}, T: types.Typ[types.Bool]}
+		}
+		mc, ok := e.state().Heap[mv.Obj].(sym.MapContent)
+		if !ok {
+			bad("has: map content missing")
+		}
+		ks := kv.V.(sym.Scalar).T
+		if sym.IsSigned(kv.T) {
+			ks = SExt(64, ks)
+		} else {
+			ks = ZExt(64, ks)
+		}
+		return TV{V: sym.Scalar{T: And(Not(mv.Nil), Eq(Select(mc.Present, ks), BVC(1, 1)))}, T: types.Typ[types.Bool]}
+	case "forallk":
+		// forallk(k, body): for all 64-bit integers k
+		iv := n.Args[0].(*ast.Ident).Name
+		key := fmt.Sprintf("sk!%s!%s!%d", e.Owner, iv, n.Pos())
+		sk := e.Skol[key]
+		if sk == nil {
+			sk = e.Fx.Cx.Fresh("sk."+iv, BV(64))
+			if e.Skol != nil {
+				e.Skol[key] = sk
+			}
+		}
+		if e.noQuant > 0 {
+			bad("quantifier in a negative position (left of implies / under !)")
+		}
+		if e.Assume {
+			e.registerQ(iv, types.Typ[types.Int64], nil, nil, n.Args[1])
+			return TV{V: sym.Scalar{T: True}, T: types.Typ[types.Bool]}
+		}
+		saved, had := e.Vars[iv]
+		e.Vars[iv] = TV{V: sym.Scalar{T: sk}, T: types.Typ[types.Int64]}
+		body := e.boolT(n.Args[1])
+		if had {
+			e.Vars[iv] = saved
+		} else {
+			delete(e.Vars, iv)
+		}
+		return TV{V: sym.Scalar{T: body}, T: types.Typ[types.Bool]}
 	case "ghost_alloc":
 		// octets allocated so far by the function under check (ghost counter)
 		g, ok := e.state().Ghost["alloc"]
@@ -747,6 +908,13 @@ func (e *Env) call(n *ast.CallExpr) TV {
 			if e.Skol != nil {
 				e.Skol[key] = sk
 			}
+		}
+		if e.noQuant > 0 {
+			bad("quantifier in a negative position (left of implies / under !)")
+		}
+		if e.Assume {
+			e.registerQ(iv, types.Typ[types.Int], lo, hi, n.Args[3])
+			return TV{V: sym.Scalar{T: True}, T: types.Typ[types.Bool]}
 		}
 		saved, had := e.Vars[iv]
 		e.Vars[iv] = TV{V: sym.Scalar{T: sk}, T: types.Typ[types.Int]}
@@ -792,6 +960,37 @@ func (e *Env) call(n *ast.CallExpr) TV {
 	}
 	bad("unknown function %s in contract", id.Name)
 	return TV{}
+}
+
+// registerQ records `forall iv in [lo,hi): body` (under the current guards) as a quantified hypothesis of e.St.
+func (e *Env) registerQ(iv string, t types.Type, lo, hi *Term, body ast.Expr) {
+	vars := map[string]TV{}
+	for k, v := range e.Vars {
+		vars[k] = v
+	}
+	snap := &Env{Fx: e.Fx, St: e.St.Clone(), Old: e.Old, Vars: vars, Set: e.Set, InOld: e.InOld, Skol: e.Skol, Owner: e.Owner}
+	if e.InOld && e.Old != nil {
+		snap.St = e.Old
+	}
+	guards := append([]*Term(nil), e.guards...)
+	e.St.Quants = append(e.St.Quants, &sym.QFact{Inst: func(k *Term) *Term {
+		local := *snap
+		lv := map[string]TV{}
+		for a, b := range snap.Vars {
+			lv[a] = b
+		}
+		lv[iv] = TV{V: sym.Scalar{T: k}, T: t}
+		local.Vars = lv
+		bt, err := local.Bool(body)
+		if err != nil {
+			return nil
+		}
+		g := append([]*Term(nil), guards...)
+		if lo != nil {
+			g = append(g, SLe(lo, k), SLt(k, hi))
+		}
+		return Implies(And(g...), bt)
+	}})
 }
 
 // sliceContent turns a slice into a value-level string-like view so that EqV compares contents.
